@@ -354,8 +354,13 @@ def run_unit(name, tier="quick", use_cache=True, canary=True, repo=None):
                 "unreachable!, callee preconditions, termination")
             # a method of a trait impl also owes the clauses of the trait's declaration (Verus checks them against this body)
             if f.get("impl_trait"):
+                tname = re.sub(r"<.*$", "", f["impl_trait"])
+                if not any((not tf["has_body"]) and tf["name"] == "%s::%s" % (tname, f.get("method")) for tf in b.fns):
+                    # the trait is declared in the unit template (a model of a dependency's trait): its postconditions are owed too
+                    add("%s::%s::trait-contract" % (name, f["name"]), f["name"], "trait-contract", f["tags"] or tags.get(f["name"], default_tags), loc,
+                        "postconditions of the declaration of trait %s in the unit template" % tname)
                 for tf in b.fns:
-                    if not tf["has_body"] and tf["name"] == "%s::%s" % (f["impl_trait"], f.get("method")):
+                    if not tf["has_body"] and tf["name"] == "%s::%s" % (tname, f.get("method")):
                         for c in tf["clauses"]:
                             if c["kind"] == "ensures":
                                 add("%s::%s::trait.%s" % (name, f["name"], c["id"]), f["name"], "trait." + c["id"], c["tags"], loc,
@@ -437,6 +442,19 @@ def run_unit(name, tier="quick", use_cache=True, canary=True, repo=None):
             res["undecided"].append("verus: %s at generated line %d (no enclosing fn)" % (msg, line))
             continue
         failed_fns.setdefault(fnn, []).append(info)
+        if kind == "post" and fnn not in extracted:
+            # a postcondition written in the unit template (trait declaration of a dependency model) failed for an extracted body
+            ex = [s_ for s_ in sec if s_["label"] and ("exit" in s_["label"] or "end of the function" in s_["label"])]
+            if ex:
+                frn = linemap[ex[0]["ls"] - 1].get("fn") if ex[0]["ls"] - 1 < len(linemap) else None
+                oid = "%s::%s::trait-contract" % (name, frn)
+                if frn and oid in obl:
+                    rr = linemap[ex[0]["ls"] - 1]
+                    if "file" in rr:
+                        info["repo"] = "%s:%s" % (rr["file"], rr["line"])
+                    obl[oid]["status"] = "failed"
+                    obl[oid]["diags"].append(info)
+                    continue
         if fnn in extracted and kind == "post" and rec.get("clause") and not extracted[fnn]["has_body"]:
             # a trait declaration's clause failed for an implementation: the exit span names the implementing body
             ex = [s_ for s_ in sec if s_["label"] and ("exit" in s_["label"] or "end of the function" in s_["label"])]
